@@ -400,6 +400,40 @@ pub fn run(tier: &str) -> Run {
         }
         run.require("member-list unions: conserved", 5000);
     }
+    // same-name elements that differ only in a later one of several same-named sub-items (an INSTANCE with one OVERWRITE per
+    // axis: the OVERWRITE blocks share the name of the instance's component)
+    {
+        let inst = |second_cm: &str, first_cm: &str| {
+            e("INSTANCE", "I", "c1")
+                .set("type_ref", "TS")
+                .kid(ks("OVERWRITE", &[("name", "ov"), ("axis_number", "1")]).with(ks("CONVERSION", &[("name", first_cm)])))
+                .kid(ks("OVERWRITE", &[("name", "ov"), ("axis_number", "2")]).with(ks("CONVERSION", &[("name", second_cm)])))
+                .kid(ks("OVERWRITE", &[("name", "ov"), ("axis_number", "3")]).with(ks("CONVERSION", &[("name", "CM1")])))
+        };
+        for (label, a, b) in [
+            ("second OVERWRITE differs", inst("CM1", "CM1"), inst("CM2", "CM1")),
+            ("first OVERWRITE differs", inst("CM1", "CM1"), inst("CM1", "CM2")),
+            ("identical", inst("CM2", "CM1"), inst("CM2", "CM1")),
+        ] {
+            let (ta, tb) = (file_text(&g, "A", &[a]), file_text(&g, "B", &[b]));
+            run.evaluations += 1;
+            run.transitions += 3;
+            run.states.insert(fnv1a(format!("{ta}|{tb}").as_bytes()));
+            match merge_and_check(&g, &ta, &tb) {
+                Err(e2) if e2.starts_with("machinery") => run.machinery(e2),
+                Err(e2) => run.violation(format!("C08/panic {}", vcore::explore::panic_key(&e2)), format!("INSTANCE with three same-named OVERWRITE blocks, {label}: {e2}"), json!({"a": ta, "b": tb})),
+                Ok(vs) => {
+                    let cv: Vec<&MV> = vs.iter().filter(|v| v.category == "conservation").collect();
+                    if cv.is_empty() {
+                        run.outcome("same-named sub-items: conserved");
+                    }
+                    for v in cv {
+                        run.violation(format!("C08/{}/same-named-sub-items/{}", v.oracle, v.detail), format!("INSTANCE with three same-named OVERWRITE blocks, {label}: {}", v.what), json!({"a": ta, "b": tb}));
+                    }
+                }
+            }
+        }
+    }
     // rich documents (singletons MOD_COMMON / MOD_PAR / A2ML / VARIANT_CODING with all their optional children, elements with
     // sub-elements) merged into an empty module, into new() and into each other
     {
